@@ -1,7 +1,7 @@
 import inspect
 import typing
 
-from .deferred import Deferred, SizedDeferred, wait
+from .deferred import Deferred, SizedDeferred, DeferredCycle, wait
 from . import operators
 from . import reports
 from .types import CodeBlock
@@ -16,8 +16,21 @@ int16 = typing.NewType("int16", int)
 int32 = typing.NewType("int32", int)
 
 
-def get_as_int(state, what, token, arg_token, bitness, unsigned, default=None):
-    value = wait(arg_token.resolve(state))
+def report_cycle(what, arg_token):
+    reports.error(
+        "recursive-definition",
+        (arg_token.ctx_start, arg_token.ctx_end, f"The value of {what} depends on itself, and thus cannot be determined.")
+    )
+    raise reports.RecoverableError("The value depends on itself")
+
+
+def get_as_int(state, what, token, arg_token, bitness, unsigned, default=None, cycle_is_reported=True):
+    try:
+        value = wait(arg_token.resolve(state))
+    except DeferredCycle:
+        if not cycle_is_reported:
+            raise
+        report_cycle(what, arg_token)
 
     if not isinstance(value, int):
         reports.error(
@@ -64,7 +77,10 @@ def get_as_int(state, what, token, arg_token, bitness, unsigned, default=None):
 
 
 def get_as_str(state, what, token, arg_token):
-    value = wait(arg_token.resolve(state))
+    try:
+        value = wait(arg_token.resolve(state))
+    except DeferredCycle:
+        report_cycle(what, arg_token)
     if isinstance(value, str):
         return value
     else:
